@@ -233,6 +233,9 @@ void harness_parse(void)
 #define VP_KF 1
 #endif
 #define VP_KMAX 8
+#ifndef VP_KH2            /* harness_host_seq: longest second host */
+#define VP_KH2 VP_KH
+#endif
 #define VP_POS(k) ((k) > 0 ? (k) : 0)
 #ifndef VP_PORT_LO          /* port range; VP_PORT_HI < VP_PORT_LO: the port is never set */
 #define VP_PORT_LO -2
@@ -384,4 +387,67 @@ void harness_join_limit(void)
 	if (j == NULL && limit > 0) VP_WITNESS("join: refused, does not fit");
 	if (j != NULL && limit == full && full > 3) VP_WITNESS("join: fits exactly");
 	evhttp_uri_free(u);
+}
+
+/* ------------------------------------------------------------ host sequence
+ * Setters are applied to a URI that ALREADY has a host: the first host comes either from
+ * evhttp_uri_parse_with_flags("//[::]:8/p") or from evhttp_uri_set_host(first) with a solver-chosen first
+ * host (bracketed literals reachable: VP_KH >= 4), the flags are solver-chosen (HOST_STRIP_BRACKETS
+ * included: that is the state that carries the internal "host had brackets" mark).  Then
+ * evhttp_uri_set_host(second) with a solver-chosen second host (reg-name, IP-literal, "" or NULL = clear).
+ * If accepted: the getter returns the second host (without brackets under HOST_STRIP_BRACKETS), and
+ * evhttp_uri_join either refuses or its output parses, with the same flags, into exactly the current
+ * components -- nothing of the replaced host (in particular not its brackets) may survive.
+ */
+void harness_host_seq(void)
+{
+	char c1[VP_KMAX + 1], c2[VP_KMAX + 1], buf[VP_SJMAX + 8];
+	const char *h1, *h2;
+	struct evhttp_uri *u, *u2;
+	unsigned flags = vp_flags();
+	int from_parse = vp_bool(), clear = vp_bool(), r, stripped;
+	char *j;
+
+	vp_v6_verdict = vp_bool();
+	if (from_parse) {
+		u = evhttp_uri_parse_with_flags("//[::]:8/p", flags);
+		if (u == NULL) { VP_ASSERT(!vp_v6_verdict, "C28: '//[::]:8/p' is refused although '::' is an IPv6 address"); return; }
+	} else {
+		u = evhttp_uri_new();
+		__CPROVER_assume(u != NULL);
+		evhttp_uri_set_flags(u, flags);
+		h1 = vp_component(c1, VP_KH);
+		if (h1 && evhttp_uri_set_host(u, h1) < 0) return;
+	}
+	h2 = vp_component(c2, VP_KH2);
+	if (clear) h2 = NULL;
+#ifdef KF_EXCLUDE_HOST_NAMED_UNIX
+	/* finding fixes/C28-join-host-named-unix (pending): host "unix" + port under EVHTTP_URI_UNIX_SOCKET */
+	__CPROVER_assume(!((flags & EVHTTP_URI_UNIX_SOCKET) && h2 && h2[0] == 'u' && h2[1] == 'n' && h2[2] == 'i' && h2[3] == 'x' && h2[4] == 0));
+#endif
+	r = evhttp_uri_set_host(u, h2);
+	if (r < 0) { VP_WITNESS("host sequence: second host refused"); return; }
+	stripped = h2 && h2[0] == '[' && (flags & EVHTTP_URI_HOST_STRIP_BRACKETS);
+	if (!stripped)
+		VP_ASSERT(vp_opt_streq(evhttp_uri_get_host(u), h2), "C28: evhttp_uri_get_host does not return what evhttp_uri_set_host accepted");
+	j = evhttp_uri_join(u, buf, sizeof(buf));
+	if (j == NULL) { VP_WITNESS("host sequence: join refuses (port without host)"); return; }
+	u2 = evhttp_uri_parse_with_flags(buf, flags);
+	VP_ASSERT(u2 != NULL, "C28: after replacing the host the URI joins into a string that does not parse");
+	if (u2 == NULL) return;
+	VP_ASSERT(vp_opt_streq(evhttp_uri_get_host(u), evhttp_uri_get_host(u2)), "C28: replaced host does not survive join+parse");
+	VP_ASSERT(evhttp_uri_get_port(u) == evhttp_uri_get_port(u2), "C28: port does not survive join+parse after the host was replaced");
+	VP_ASSERT(vp_opt_streq(evhttp_uri_get_path(u) ? evhttp_uri_get_path(u) : "", evhttp_uri_get_path(u2)), "C28: path does not survive join+parse after the host was replaced");
+	VP_ASSERT(vp_opt_streq(evhttp_uri_get_userinfo(u), evhttp_uri_get_userinfo(u2)) && vp_opt_streq(evhttp_uri_get_scheme(u), evhttp_uri_get_scheme(u2)) &&
+	    vp_opt_streq(evhttp_uri_get_query(u), evhttp_uri_get_query(u2)) && vp_opt_streq(evhttp_uri_get_fragment(u), evhttp_uri_get_fragment(u2)),
+	    "C28: a component appears or disappears in join+parse after the host was replaced");
+	if (from_parse && (flags & EVHTTP_URI_HOST_STRIP_BRACKETS) && h2 && h2[0] != '[' && h2[0] != 0) VP_WITNESS("host sequence: parsed stripped IP-literal replaced by a reg-name");
+	if (!from_parse && (flags & EVHTTP_URI_HOST_STRIP_BRACKETS) && h2 && h2[0] != '[' && h2[0] != 0) VP_WITNESS("host sequence: set-host round trip without a parse");
+#ifdef VP_WIT_V6
+	if (!from_parse && (flags & EVHTTP_URI_HOST_STRIP_BRACKETS) && evhttp_uri_get_host(u) && h2 && h2[0] != '[' && h2[0] != 0 && c1[0] == '[') VP_WITNESS("host sequence: set stripped IP-literal replaced by a reg-name");
+#endif
+	if (stripped) VP_WITNESS("host sequence: reg-name or literal replaced by a stripped IP-literal");
+	evhttp_uri_free(u);
+	evhttp_uri_free(u2);
+	VP_ASSERT(vp_alloc_calls == vp_free_calls, "C28: evhttp_uri_free leaves memory behind");
 }
